@@ -316,6 +316,32 @@ impl StoreTransaction {
         self.insert_raw(COLUMN_EPOCH, epoch_number.as_slice(), hash.as_slice())
     }
 
+    /// Inserts epoch extension data keyed by its epoch index only.
+    ///
+    /// Unlike `insert_epoch_ext` this leaves the epoch-number to epoch-index mapping untouched:
+    /// that mapping describes the main chain and must not follow side-branch blocks.
+    pub fn insert_epoch_ext_by_index(
+        &self,
+        hash: &packed::Byte32,
+        epoch: &EpochExt,
+    ) -> Result<(), Error> {
+        self.insert_raw(
+            COLUMN_EPOCH,
+            hash.as_slice(),
+            Into::<packed::EpochExt>::into(epoch).as_slice(),
+        )
+    }
+
+    /// Points an epoch number at the epoch index of the main chain's epoch with that number.
+    pub fn insert_epoch_number_index(
+        &self,
+        number: u64,
+        hash: &packed::Byte32,
+    ) -> Result<(), Error> {
+        let epoch_number: packed::Uint64 = number.into();
+        self.insert_raw(COLUMN_EPOCH, epoch_number.as_slice(), hash.as_slice())
+    }
+
     /// Inserts the current epoch extension data.
     pub fn insert_current_epoch_ext(&self, epoch: &EpochExt) -> Result<(), Error> {
         self.insert_raw(
